@@ -648,6 +648,7 @@ func (j *packedJob) runCase(i int) {
 			r.Note("events", "roll-over-while-continuing")
 		}
 		o.reindexCheck(dir, j.idxKind, packMaxFileSize, "rebuilt2")
+		o.inplaceReindexCheck(dir, j.idxKind, "idx", packMaxFileSize)
 	})
 	if st.mode != "" {
 		r.Count("restarts_diskpacked_"+st.mode, 1)
@@ -736,6 +737,7 @@ func (j *packedJob) runRebuilt(o *oracle, st packedState, dir string) {
 	closeStorage(s)
 	r.Note("events", "continued-on-rebuilt-index")
 	o.reindexCheck(dir, j.idxKind, packMaxFileSize, "rebuilt2")
+	o.inplaceReindexCheck(dir, j.idxKind, idxDir, packMaxFileSize)
 }
 
 // runAhead: the index has the row of the record, the pack does not have all of its body.  The
@@ -831,6 +833,119 @@ func (o *oracle) reindexCheck(dir, idxKind string, mfs int, name string) {
 			if ref.String() == m {
 				o.r.Count("reindex_restored_unacked_record", 1)
 			}
+		}
+	}
+}
+
+// served is what one open store shows of the universe, per view.
+type served struct {
+	fetch, stat, enum map[blobRef]bool
+}
+
+// observeServed reads every blob of the universe through fetch, stat and enumerate: a blob counts as
+// served in a view iff that view presents it with exactly its bytes / size.
+func (o *oracle) observeServed(s blobserver.Storage) served {
+	ctx := context.Background()
+	v := served{fetch: map[blobRef]bool{}, stat: map[blobRef]bool{}, enum: map[blobRef]bool{}}
+	for _, b := range o.w.Uni {
+		if rc, size, err := s.Fetch(ctx, b.Ref); err == nil {
+			data, err := io.ReadAll(rc)
+			rc.Close()
+			if err == nil && int(size) == len(b.Data) && bytes.Equal(data, b.Data) {
+				v.fetch[b.Ref] = true
+			}
+		}
+		s.StatBlobs(ctx, []blobRef{b.Ref}, func(sb sizedRef) error {
+			if sb.Ref == b.Ref && int(sb.Size) == len(b.Data) {
+				v.stat[b.Ref] = true
+			}
+			return nil
+		})
+	}
+	sizes := map[blobRef]int{}
+	for _, b := range o.w.Uni {
+		sizes[b.Ref] = len(b.Data)
+	}
+	ch := make(chan sizedRef, 16)
+	errc := make(chan error, 1)
+	go func() { errc <- s.EnumerateBlobs(ctx, ch, "", 10000) }()
+	for sb := range ch {
+		if n, ok := sizes[sb.Ref]; ok && n == int(sb.Size) {
+			v.enum[sb.Ref] = true
+		}
+	}
+	<-errc
+	return v
+}
+
+// inplaceReindexCheck is the operator's recovery attempt on the LIVE index: with the store stopped,
+// diskpacked.Reindex(overwrite) is run on the index the store uses (what `pk reindex-diskpacked
+// -overwrite` does), then the store is started again.  Whether the rebuild succeeds or gives up with
+// an error (it does give up on a pack with a torn record followed by later appends - the listed
+// reindex-fails finding), it must not cost the store an acknowledged blob it served until then:
+// every acknowledged, non-removed blob that a view presented intact before the attempt must be
+// presented intact by that view after it.  Nothing else is judged here (what a rebuild may ADD is
+// judged on the fresh index in reindexCheck).
+func (o *oracle) inplaceReindexCheck(dir, idxKind, idxDir string, mfs int) {
+	s, err := openPacked(dir, idxKind, idxDir, mfs)
+	if err != nil {
+		o.r.Count("inplace_reindex_skipped_store_does_not_open", 1)
+		return
+	}
+	before := o.observeServed(s)
+	closeStorage(s)
+	ok := ev.WithTimeout(120*time.Second, func() {
+		err = diskpacked.Reindex(context.Background(), dir, true, jsonconfig.Obj(idxConf(idxKind, filepath.Join(dir, idxDir))))
+	})
+	if !ok {
+		o.r.Inconclusive("diskpacked.Reindex on the live index did not return within 120s: " + o.info.CaseID)
+		return
+	}
+	class, outcome := "reindex-inplace-lost", "the rebuild returned nil"
+	if err != nil {
+		class, outcome = "reindex-failed-then-lost", "the rebuild failed: "+err.Error()
+		o.r.Note("events", "inplace-reindex-failed")
+		o.r.Count("inplace_reindex_failed", 1)
+		o.r.Note("inplace_reindex_failed_in", strings.TrimPrefix(o.info.Kind, "pl-")+o.phase)
+	} else {
+		o.r.Note("events", "inplace-reindex-ok")
+		o.r.Count("inplace_reindex_ok", 1)
+	}
+	s, err2 := openPacked(dir, idxKind, idxDir, mfs)
+	o.r.Eval(1)
+	if err2 != nil {
+		o.violation(class+"/reopen-fails", "the store opened before diskpacked.Reindex(overwrite) was run on its live index ("+outcome+") and does not open after it: "+err2.Error())
+		return
+	}
+	defer closeStorage(s)
+	after := o.observeServed(s)
+	lost := map[string][]string{}
+	var first = map[string]blobRef{}
+	for _, b := range o.w.Uni {
+		if _, acked := o.present[b.Ref]; !acked {
+			continue
+		}
+		for _, v := range []struct {
+			name       string
+			was, still bool
+		}{{"fetch", before.fetch[b.Ref], after.fetch[b.Ref]}, {"stat", before.stat[b.Ref], after.stat[b.Ref]}, {"enumerate", before.enum[b.Ref], after.enum[b.Ref]}} {
+			if !v.was {
+				continue
+			}
+			o.r.Eval(1)
+			o.r.Count("inplace_reindex_served_before_checked", 1)
+			if !v.still {
+				subj := o.subject(b.Ref)
+				if _, ok := first[subj]; !ok {
+					first[subj] = b.Ref
+				}
+				lost[subj] = append(lost[subj], fmt.Sprintf("%v (%s)", b.Ref, v.name))
+			}
+		}
+	}
+	for _, subj := range []string{"old", "inflight", "new"} {
+		if l := lost[subj]; len(l) > 0 {
+			o.violationRef(class+"/"+subj, fmt.Sprintf("diskpacked.Reindex(overwrite) was run on the store's live index (%s); %d view(s) of acknowledged, non-removed blobs that were served intact before the attempt are not served after it: %s", outcome, len(l), strings.Join(l, ", ")), first[subj])
 		}
 	}
 }
